@@ -249,6 +249,15 @@ Definition rdfentry_unmarshal (s : list tok) : res wentry :=
   dr <- dec_str s4 ;;
   Ok (mkwentry parts x).
 
+(* RDFEntry.UnmarshalBinary followed by KeyValueMtEntries on the restored entry:
+   the key parts and the value come from the untrusted bytes (a key part may be the
+   empty string, for which HashBytes answers an error) *)
+Definition rdfentry_key_value (g : guards) (P : prim) (s : list tok) : res (elem * elem) :=
+  e <- rdfentry_unmarshal s ;;
+  k <- path_mt_entry g P (w_parts e) ;;
+  v <- mk_value g P (w_val e) ;;
+  Ok (k, v).
+
 (* the nested stream of an entry, as gob hands it to UnmarshalBinary *)
 Definition dec_entry (s : list tok) : res (wentry * list tok) :=
   match s with
